@@ -655,7 +655,15 @@ def dict_ops(c, r, lines, expect, ctxs):
                 if int(val[n]) != U.defaults[(ci, n)] and py not in d:
                     c.fails.append(common.Failure("oracle", "C19:value-omitted", f"{hn}.to_dict() omits {py}={val[n]} (default {U.defaults[(ci, n)]})", ctx))
         try:
-            back = U.classes[ci].from_dict(d)
+            if r.random() < 0.5:
+                # rebuilt in memory that has been used before (a buffer full of old bytes): fields the dictionary omits must still
+                # be written with their defaults
+                pb = c.xo.ContextCpu().new_buffer(2048)
+                pb.update_from_buffer(0, bytes([0xA5]) * 2048)
+                back = U.classes[ci].from_dict(d, _buffer=pb)
+                c.tags["fromdict.into-used-memory"] += 1
+            else:
+                back = U.classes[ci].from_dict(d)
             v2 = c.strip(c.values(back))
             c.tags["fromdict"] += 1
             if v2 != val:
